@@ -16,7 +16,7 @@ ASSUMPTIONS = ['constraints are deterministic, idempotent and map the box into i
 CLASSES = {
     'class_api': {'quick': 1280, 'thorough': 18000},
     'wrappers': {'quick': 320, 'thorough': 4000},
-    'ensembles': {'quick': 96, 'thorough': 1200},
+    'ensembles': {'quick': 192, 'thorough': 2400},
 }
 MIN_EVENTS = {'quick': {'step_boundaries': 2500, 'assert:c01': 3000, 'members_judged': 5000, 'cost_calls': 20000}}
 CASE_TIMEOUT = 120
@@ -92,7 +92,9 @@ def run_wrapper(rng, obs):
 
 
 def run_ensemble(rng, obs):
-    from mystic.solvers import lattice, buckshot, sparsity
+    from mystic.solvers import lattice, buckshot, sparsity, LatticeSolver, BuckshotSolver, SparsitySolver
+    from mystic.solvers import NelderMeadSimplexSolver, PowellDirectionalSolver, DifferentialEvolutionSolver, DifferentialEvolutionSolver2
+    import mystic.termination as mt
     which = rng.choice(['lattice', 'buckshot', 'sparsity'])
     dim = rng.randint(1, 3)
     cost_spec = K.gen_cost(rng, dim, ['sphere', 'illquad', 'abs', 'rosen'])
@@ -101,21 +103,53 @@ def run_ensemble(rng, obs):
     seen = set()
     probe.hooks.append(lambda seq, x: seen.add(tuple(x)))
     box = K.gen_box(rng, dim, None, shape='finite')
-    kw = {'disp': 0, 'full_output': 1, 'bounds': list(zip(box['lo'], box['hi'])), 'maxiter': rng.choice([3, 10, 40]), 'maxfun': rng.choice([None, 200])}
+    inner_name = rng.choice(['default', 'nm', 'powell', 'de', 'de2'])
+    inner = {'nm': NelderMeadSimplexSolver, 'powell': PowellDirectionalSolver, 'de': DifferentialEvolutionSolver, 'de2': DifferentialEvolutionSolver2}.get(inner_name)
+    api = rng.choice(['wrapper', 'class_solve', 'class_step'])
+    maxiter = rng.choice([3, 10, 40]); maxfun = rng.choice([None, 200])
     pen_spec = K.gen_penalty(rng, dim) if rng.random() < 0.3 else None
-    if pen_spec: kw['penalty'] = K.make_penalty(pen_spec)
-    if which == 'lattice': out = lattice(probe, dim, nbins=rng.choice([2, 3, 4]), **kw); 
-    elif which == 'buckshot': out = buckshot(probe, dim, npts=rng.choice([2, 4, 6]), **kw)
-    else: out = sparsity(probe, dim, npts=rng.choice([2, 4, 6]), **kw)
-    xopt, fopt = out[0], out[1]
-    xl = [float(v) for v in np.atleast_1d(xopt)]
     refpen = K.ref_penalty(pen_spec)
-    obs.desc = {'wrapper': which, 'dim': dim, 'cost': cost_spec, 'box': box, 'pen': pen_spec, 'maxiter': kw['maxiter']}
-    obs.event('cost_calls', probe.n)
-    if math.isfinite(float(fopt)):
-        obs.check(tuple(xl) in seen, 'c01:ensemble xopt is a point where the cost was actually called', wrapper=which, xopt=xl, fopt=float(fopt))
+    n = rng.choice([2, 3, 4]) if which == 'lattice' else rng.choice([2, 4, 6])
+    obs.desc = {'wrapper': which, 'api': api, 'nested': inner_name, 'dim': dim, 'cost': cost_spec, 'box': box, 'pen': pen_spec, 'maxiter': maxiter, 'n': n}
+
+    def judge(where, xopt, fopt):
+        xl = [float(v) for v in np.atleast_1d(xopt)]
+        if not math.isfinite(float(fopt)): return
+        obs.check(tuple(xl) in seen, 'c01:ensemble xopt is a point where the cost was actually called', wrapper=which, api=api, nested=inner_name, where=where,
+                  xopt=xl, fopt=float(fopt))
         fb = raw(xl) + refpen(xl)
-        obs.check(M.feq(float(fopt), fb, 1e-13), 'c01:ensemble fopt equals cost+penalty at xopt', wrapper=which, xopt=xl, observed=float(fopt), expected=fb)
+        obs.check(M.feq(float(fopt), fb, 1e-13), 'c01:ensemble fopt equals cost+penalty at xopt', wrapper=which, api=api, nested=inner_name, where=where, xopt=xl,
+                  observed=float(fopt), expected=fb)
         obs.event('assert:c01')
+
+    if api == 'wrapper':
+        kw = {'disp': 0, 'full_output': 1, 'bounds': list(zip(box['lo'], box['hi'])), 'maxiter': maxiter, 'maxfun': maxfun}
+        if pen_spec: kw['penalty'] = K.make_penalty(pen_spec)
+        if inner is not None: kw['solver'] = inner
+        fn = {'lattice': lattice, 'buckshot': buckshot, 'sparsity': sparsity}[which]
+        out = fn(probe, dim, **({'nbins': n} if which == 'lattice' else {'npts': n}), **kw)
+        judge('return', out[0], out[1])
+        fopt = out[1]
+    else:
+        s = {'lattice': LatticeSolver, 'buckshot': BuckshotSolver, 'sparsity': SparsitySolver}[which](dim, n)
+        if inner is not None: s.SetNestedSolver(inner)
+        s.SetStrictRanges(box['lo'], box['hi'])
+        s.SetEvaluationLimits(maxiter, maxfun)
+        s.SetTermination(mt.NormalizedChangeOverGeneration(1e-8, 10))
+        if pen_spec: s.SetPenalty(K.make_penalty(pen_spec))
+        if api == 'class_solve':
+            s.Solve(probe, disp=0)
+        else:
+            s.SetObjective(probe)
+            for i in range(rng.choice([2, 5, 12])):
+                s.Step()
+                judge('step %d' % (i + 1), s.bestSolution, s.bestEnergy)
+                obs.event('ensemble_step_boundaries')
+                if s.Terminated(): break
+            s.Finalize()
+        judge('final', s.bestSolution, s.bestEnergy)
+        judge('Solution()', s.Solution(), s.bestEnergy)
+        fopt = s.bestEnergy
+    obs.event('cost_calls', probe.n)
     obs.nontrivial = probe.n > 10
     obs.notes = {'fopt': float(fopt), 'cost_calls': probe.n}
